@@ -81,7 +81,7 @@ example : wfForest exS exSrc = true ∧ beqL (merge exS {} [] exSrc) exSrc = fal
 merge links copies made by `lyd_dup_single(RECURSIVE | WITH_FLAGS)` — the model has both paths (`insertSrc`).  Same result
 for every target, provided the source's default flags are consistent downwards (which `wfForest` includes): then the copy
 is the original (`dupNode_full`).  (The model links a moved node exactly as a copied one; where the C's `lyds` pool makes
-it differ is finding F70, a defect outside the model.) -/
+it differ is finding F160, a defect outside the model.) -/
 theorem merge_destruct_eq_copy (S : Schema) (o : MergeOpts) (t s : List DNode) (h : flagsOkL s = true) :
     merge S { o with destruct := true } t s = merge S { o with destruct := false } t s := by
   simp only [merge]
